@@ -79,6 +79,13 @@ def run(res, b, tier, seed):
     progs.append(pipeline.Case("i%d" % len(progs), {"main.tsh": b'import a "one/a.tsh"\nprint(a.Get(2))\nif a.Get(1) > 5 {\n\tpanic("main")\n}\n',
                                                      "one/a.tsh": b'import b "two/b.tsh"\nvar Limit int = 3\nif Limit > 10 {\n\tpanic("limit")\n}\nfunc Get(v int) int {\n\treturn b.Checked(v) + Limit\n}\n',
                                                      "one/two/b.tsh": b'func Checked(v int) int {\n\tfor i := 0; i < v; i++ {\n\t\tif i > 100 {\n\t\t\tpanic("too many")\n\t\t}\n\t}\n\treturn v\n}\n'}))
+    # two DIFFERENT files of one program with byte-identical content (round 14: C14-G gave the second one a prefix hashed from content plus
+    # absolute path)
+    same = b'var Count int = 0\nfunc Bump(n int) int {\n\tCount = Count + n\n\treturn Count\n}\n'
+    progs.append(pipeline.Case("i%d" % len(progs), {"main.tsh": b'import a "one/util.tsh"\nimport b "two/util.tsh"\nprint(a.Bump(2), b.Bump(40))\n',
+                                                     "one/util.tsh": same, "two/util.tsh": same}))
+    progs.append(pipeline.Case("i%d" % len(progs), {"main.tsh": b'import (\n\ta "x/lib.tsh"\n\tb "y/z/lib.tsh"\n\tc "lib.tsh"\n)\nprint(a.Bump(1), b.Bump(2), c.Bump(3))\n',
+                                                     "x/lib.tsh": same, "y/z/lib.tsh": same, "lib.tsh": same}))
     inter1 = len(progs)
     progs.append(pipeline.Case("bad", {"main.tsh": b"x := \n"}))
     # programs the PARSER rejects at different depths of its own recursion - inside a function body, inside a loop inside a function, inside a
